@@ -236,7 +236,63 @@ pub fn ctap2_shapes(tier: Tier, st: &mut Stats) {
     }
 }
 
+/// C03: a store whose items spell `rp_id` differently from the RP ID they are found under
+/// (drivers::RelabelRp).  Assertions at CTAP2 level and through the client: the authenticator data
+/// carries SHA-256 of the RP ID of the request, and the signature verifies over exactly that data.
+fn relabel_one(how: u8, counter: Option<u32>, client: bool) -> Vec<(String, String)> {
+    let d = fixed_scalar(2);
+    let rp_id = "example.com";
+    let pk = Passkey { key: cose_private_from_scalar(&d), credential_id: cred_id(2).into(), rp_id: rp_id.into(), user_handle: Some(vec![7, 7].into()), counter, extensions: Default::default() };
+    let out = par::catch(|| {
+        let store = RelabelRp { inner: Shared::new(RefStore::with(vec![pk.clone()])), how };
+        let mut a = Authenticator::new(Aaguid::new_empty(), store, ScriptedUv::consenting(Log::new()));
+        if client {
+            let mut c = passkey_client::Client::new(a);
+            let url = url::Url::parse("https://example.com").unwrap();
+            let opts = request_options(Auth { allow: Some(vec![cred_id(2)]), ..Default::default() });
+            block_on(c.authenticate(&url, opts, passkey_client::DefaultClientData)).map(|r| (r.response.authenticator_data.to_vec(), r.response.signature.to_vec(), rp::sha256(&r.response.client_data_json).to_vec())).map_err(|e| format!("{e:?}"))
+        } else {
+            let req = ga_request(rp_id, Some(vec![cred_id(2)]), false, true, true, false, None);
+            let cdh = req.client_data_hash.to_vec();
+            block_on(a.get_assertion(req)).map(|r| (r.auth_data.to_vec(), r.signature.to_vec(), cdh)).map_err(|e| format!("{e:?}"))
+        }
+    });
+    let mut v = vec![];
+    match out {
+        Err(p) => v.push(("panic".to_string(), p)),
+        Ok(Err(e)) => v.push(("assertion-fails".to_string(), format!("assertion with a credential the store lists for the RP failed: {e}"))),
+        Ok(Ok((ad, sig, cdh))) => {
+            if ad.len() < 37 || ad[..32] != rp::sha256(rp_id.as_bytes())[..] {
+                v.push(("rp-id-hash".to_string(), format!("authenticator data does not start with SHA-256 of the request's RP ID {rp_id:?} (the store's item spells its rp_id in another way, variant {how})")));
+            }
+            let mut msg = ad.clone();
+            msg.extend_from_slice(&cdh);
+            let (x, y) = public_xy_from_scalar(&d);
+            if let Err(e) = rp::verifying_key(&x, &y).and_then(|k| rp::ecdsa_verify(&k, &msg, &sig).map(|_| ())) {
+                v.push(("assertion-signature".to_string(), e));
+            }
+        }
+    }
+    v
+}
+pub fn relabelled_rp(st: &mut Stats) {
+    for how in 0..5u8 {
+        for counter in [None, Some(5u32)] {
+            for client in [false, true] {
+                let case = json!({"relabel": {"how": how, "counter": counter, "client": client}});
+                st.case(&(how, counter, client, "relabel"), true, "relabelled-rp");
+                for (k, d) in relabel_one(how, counter, client) {
+                    st.finding(Finding::new(format!("relabelled-rp/kind={k}"), d, case.clone()));
+                }
+            }
+        }
+    }
+}
+
 pub fn replay(case: &Value) -> Option<Vec<Finding>> {
+    if let Some(r) = case.get("relabel") {
+        return Some(relabel_one(r["how"].as_u64()? as u8, r["counter"].as_u64().map(|c| c as u32), r["client"].as_bool()?).into_iter().map(|(k, d)| Finding::new(format!("relabelled-rp/kind={k}"), d, case.clone())).collect());
+    }
     let s = case.get("sigshape")?;
     let key_n = s["key"].as_u64()? as u8;
     let vs = match s["api"].as_str()? {
